@@ -26,7 +26,9 @@ Pow2(k) == IF k = 0 THEN 1 ELSE 2 * Pow2(k - 1)
 \* Deterministic data salt. All arguments are small (i, j <= 400, s <= 60,
 \* sd <= 96) so that every intermediate stays below 2^31.
 Hash(i, j, s, sd) ==
-  ((i + 1) * (j + 3) * 73 + i * 1009 + j * 9176 + s * 40099 + sd * 8111 + ((i * 7 + j * 13 + s) % 11) * 523) % 7919
+  LET a == ((i + 1) * (j + 3) * 73 + i * 1009 + j * 9176 + s * 40099 + sd * 8111 + ((i * 7 + j * 13 + s) % 11) * 523) % 7919
+      b == (a * a + 31 * a + 7 * i + 3 * j + s) % 7907      \* second, quadratic, mixing round
+  IN (b * 89 + a) % 7901
 
 \* matrices as 0-based functions; serialised as sequences of rows
 \* TLC keeps [x \in S |-> e] as a lazy value that re-evaluates e at every application;
